@@ -257,7 +257,12 @@ func runScript(url string, id int, fail string, t0 int, script []scriptEv) (rec,
 				case "resource":
 					rc.Publish(m.Reply, []byte(`{"resource":{"rid":"test.y"}}`))
 				case "error":
-					rc.Publish(m.Reply, []byte(`{"error":{"code":"custom.err","message":"m"}}`))
+					// error responses: a custom one, and ones that use the library's own codes and default messages
+					// and carry data (what arrives is what SendRequest returns)
+					v := k % 3
+					rc.Publish(m.Reply, []byte([]string{`{"error":{"code":"custom.err","message":"m"}}`,
+						`{"error":{"code":"system.notFound","message":"Not found","data":{"retryAfter":30}}}`,
+						`{"error":{"code":"system.timeout","message":"Request timeout","data":{"n":1}}}`}[v]))
 				case "garbage-bom":
 					rc.Publish(m.Reply, []byte("\xef\xbb\xbf{\"result\":{\"a\":1}}"))
 				case "garbage-latin":
@@ -296,10 +301,14 @@ func runScript(url string, id int, fail string, t0 int, script []scriptEv) (rec,
 	subsAfter := nc.NumSubscriptions()
 	kind := "result"
 	switch {
+	case resp.HasError() && resp.Error.Data != nil && (resp.Error.Code == res.CodeTimeout || resp.Error.Code == res.CodeNotFound):
+		kind = "error" // one of the error responses the responder sends, data included
 	case resp.HasError() && resp.Error.Code == res.CodeTimeout:
 		kind = "timeout"
 	case resp.HasError() && resp.Error.Code == res.CodeInternalError:
 		kind = "internal"
+	case resp.HasError() && resp.Error.Code == res.CodeNotFound:
+		kind = "error-without-its-data" // (the responder's system.notFound error carries data)
 	case resp.HasError():
 		kind = "error"
 	case resp.HasResource():
